@@ -27,7 +27,7 @@ EXPLANATION = (
 NOT_DECIDED = ["that unit k holds the text of page k", "heading-section units of docx/doc/odt (text partition is value level)", "mbox message boundaries (regex semantics)",
                "legacy PPT slide lists: text-less slides are dropped when any slide has text (open known finding)"]
 TRUSTED = ["pypdf reader.pages, openpyxl sheetnames, xlrd sheets(), ElementTree findall enumerate the source units in order", "CFG path enumeration"]
-FLOORS = {"C03-FILT": 2, "C03-JOIN": 11, "C03-NUM": 25, "C03-FILL": 8, "C03-COVER": 6}
+FLOORS = {"C03-FILT": 2, "C03-JOIN": 11, "C03-NUM": 25, "C03-FILL": 8, "C03-SEP": 36, "C03-COVER": 6}
 
 JOIN_CLASSES = ["PdfContent", "PptxContent", "OdpContent", "XlsxContent", "OdsContent", "EpubContent", "HtmlContent", "PlainTextContent", "EmailContent", "OdgContent", "OdfContent"]
 # content class -> (collection, how the number is obtained in iterate_units: 'enumerate' | '<field on element>')
@@ -469,4 +469,17 @@ def rule_cover(ctx: Ctx) -> RuleReport:
         f.rule = "C03-COVER"
     return rep
 
-RULES = [rule_join, rule_num, rule_fill, rule_filt, rule_cover]
+def rule_sep(ctx: Ctx) -> RuleReport:
+    """One unit per message of a mailbox: the separator pattern finds every From_ line (all writer forms, LF and CRLF) and nothing else.
+    The check is C16-SEP's; here it is the obligation 'units mirror messages'."""
+    from sa.rules import c16
+
+    src = c16.rule_sep(ctx)
+    rep = RuleReport("C03-SEP", "mbox: every separator line starts a unit, nothing else does (finite table of contexts x line ends x From_ line forms)")
+    rep.obligations, rep.discharged, rep.residual, rep.info, rep.samples, rep.units = src.obligations, src.discharged, src.residual, src.info, src.samples, src.units
+    for f in src.findings:
+        rep.findings.append(Finding("C03-SEP", f.file, f.function, f.construct, f.message, line=f.line))
+    return rep
+
+
+RULES = [rule_join, rule_num, rule_fill, rule_filt, rule_cover, rule_sep]
